@@ -63,15 +63,16 @@ class Recorder:
             self.note("issued-beyond-persisted-bound: %d issued while disk says %r" % (n, self.state))
         self.max_issued = n if self.max_issued is None else max(self.max_issued, n)
     # arming
-    def begin(self, arm): self.arm = arm; self.done = 0; self.crashed = False
-    def end(self): self.arm = None
+    fail_at = None; failed = False; ever_failed = False
+    def begin(self, arm, fail_at=None): self.arm = arm; self.done = 0; self.crashed = False; self.fail_at = fail_at; self.failed = False
+    def end(self): self.arm = None; self.fail_at = None
     real_kill = None     # in a forked child: file object to report through before os._exit
     partial = None
     def export(self):
-        return {"max_issued": self.max_issued, "accepted": sorted(self.accepted), "durable": self.durable, "anomalies": self.anomalies,
+        return {"max_issued": self.max_issued, "accepted": sorted(self.accepted), "durable": self.durable, "anomalies": self.anomalies, "ever_failed": self.ever_failed,
                 "synced": {k: (v.hex() if v is not None else None) for k, v in self.synced.items()}}
     def absorb(self, d):
-        self.max_issued = d["max_issued"]; self.accepted = set(d["accepted"]); self.durable = d["durable"]; self.anomalies = d["anomalies"]
+        self.max_issued = d["max_issued"]; self.accepted = set(d["accepted"]); self.durable = d["durable"]; self.anomalies = d["anomalies"]; self.ever_failed = d.get("ever_failed", False)
         self.synced = {k: (bytes.fromhex(v) if v is not None else None) for k, v in d["synced"].items()}
     def die(self):
         if self.real_kill is not None:
@@ -86,6 +87,10 @@ class Recorder:
         raise Crash()
     def pre(self):
         if self.crashed: raise Crash()
+        if self.fail_at is not None and self.done == min(max(self.fail_at, 0), 3):
+            # the file-system call fails (ENOSPC): the process survives, the effect does not happen
+            self.fail_at = None; self.failed = True; self.ever_failed = True
+            raise OSError(28, "No space left on device (injected)")
         if self.arm is not None and self.arm == 0 and self.done == 0: self.die()
     def post(self, name):
         self.done += 1; self.effects.append(name); self.refresh(name)
@@ -120,7 +125,8 @@ class FileProxy:
         if self.closed: return
         self.closed = True
         if self.rec.crashed: return
-        if self.buf: self.flush()
+        if self.buf and not self.rec.failed: self.flush()
+        self.buf = b""
         self.rec.open_fds.discard(self.fd)
         try: os.close(self.fd)
         except OSError: pass
@@ -231,8 +237,8 @@ class C13(fw.Property):
     coq_props = "Props/C13.v"
     gen_jobs = ["oscore_replay", "oscore_seqno", "oscore_rwchanged"]
     model_imports = ["Verif.Gen.oscore_replay", "Verif.Model.C12", "Verif.Model.C13", "Verif.Model.C13Kernel"]
-    quick_budget = 280
-    thorough_budget = 4000
+    quick_budget = 230
+    thorough_budget = 3000
     design_ref = "DESIGN.md section 18"
     technique = ("Coq invariant proofs over an executable model of process state + disk state (every event list, every crash point); "
                  "differential correspondence against the real FilesystemSecurityContext with a recording/crashing file-system layer")
@@ -244,7 +250,10 @@ class C13(fw.Property):
     level_note = ("Trusted: Coq kernel + vm_compute; the hand-written Model/C13.v (validated by the correspondence streams); translator + Lib/Py.v for the replay window code; "
                   "OS contract: os.replace is atomic and fsync makes content durable; crash = BaseException raised in the recording os/tempfile/io wrappers (thorough tier also kills real "
                   "subprocesses with os._exit); I/O errors (as opposed to crashes) and two processes on one directory (lock file) are outside the model; crypto/cbor/filelock stubs.")
-    rule = ("streams: kernels = the real new_sequence_number / post_seqnoincrease on a FilesystemSecurityContext subclass whose _store is a recording callback (failing when the "
+    rule = ("round 5: Respond events (protect with the request identifiers the last unprotect handed on: 4.01 of ReplayErrorWithEcho or a response; twice = observation) follow "
+            "unprotects in crash_sweep/history/replay, the identifiers' can_reuse_nonce is compared after every event; store_error = _store raising OSError after 0..3 effects inside "
+            "protect / unprotect, then more operations, crash, reload (open finding, own signatures); echo_fresh = 3 oracle-only cases with the real secrets module. "
+            "streams: kernels = the real new_sequence_number / post_seqnoincrease on a FilesystemSecurityContext subclass whose _store is a recording callback (failing when the "
             "bound to persist reaches a threshold) vs the definitions translated from source (Gen/oscore_seqno.v), and _replay_window_changed vs Gen/oscore_rwchanged.v (4 cases): counters at / around the persisted bound, chunk 0..10000, "
             "limits 0..10000, 2^40-1 +-2; crash_sweep = for chunk settings (10,10000),(1,4),(2,2),(3,100), each of the first store points, victim operation protect/seq/unprotect/stop, a crash after each "
             "of its file-system effects (0..4, stop 0..5), followed by reload, replays of recorded requests, Echo exchange, second stop/kill/crash and another reload (quick: sampled; "
@@ -257,7 +266,8 @@ class C13(fw.Property):
                     "translator translate/py2v.py + Lib/Py.v prelude for Gen/oscore_replay.v, and Model/C12.v for the request path (validated by C12 and by the unprotect events here)",
                     "OS contract: os.replace atomic, fsync durable; recording wrappers around aiocoap.oscore.os/tempfile/io/secrets",
                     "harness stubs for cbor2/cryptography(AES-CCM, HKDF)/filelock"]
-    assumptions = ["chunk size parameters are non-negative (ev_ok); a negative chunk size lowers the persisted bound and is refuted by the model too",
+    assumptions = ["I/O errors raised by _store (as opposed to the process dying) are outside the property's crash-point quantifier; they are modelled (ProtectFails / UnprotectFails), excluded from the theorems by ev_ok / ev_ok2, and what the code does then is the open finding C13:store-error:*",
+                   "chunk size parameters are non-negative (ev_ok); a negative chunk size lowers the persisted bound and is refuted by the model too",
                    "Echo values are unpredictable: a request carrying the current lifetime's Echo value was created in that lifetime, and the peer's numbers increase (echo_fresh)",
                    "I/O errors out of _store (as opposed to crashes) are outside the quantifier (DESIGN.md O4)"]
 
@@ -273,6 +283,10 @@ class C13(fw.Property):
         for flag in (True, False):
             for fail in (False, True): yield "kernels", {"rw": flag, "fail": fail}
         for k in range(56 if tier == "quick" else 1500): yield "kernels", self.gen_kernels(rng)
+        # every load draws a fresh unpredictable Echo value (real secrets module, oracle only)
+        for ends in (["stop", "kill", "stop"], ["kill", "kill"], ["protect+kill", "stop", "protect+kill"]): yield "echo_fresh", {"ends": ends}
+        # _store raising OSError instead of dying (known finding): what the code does afterwards, against the model
+        for k in range(14 if tier == "quick" else 200): yield "store_error", self.gen_store_error(rng)
         quota = {"crash_sweep": 0.30, "history": 0.36, "replay": 0.22, "exhaustion": 0.12}
         sweep = None
         for k in range(n):
@@ -285,6 +299,28 @@ class C13(fw.Property):
             elif name == "history": yield name, self.gen_history(rng, tier)
             elif name == "replay": yield name, self.gen_replay(rng)
             else: yield name, self.gen_exhaustion(rng)
+
+    def gen_store_error(self, rng):
+        b = self.Builder(rng, 32, None if rng.random() < 0.6 else self.rand_disk(rng, 32))
+        cfg = rng.choice(CHUNKS[:9]); b.reload(*cfg)
+        pts = store_points(cfg[0], cfg[1], 400)
+        if rng.random() < 0.55:
+            pre = rng.choice(pts[:4]) - 1 + rng.choice([0, 0, 0, 1, -1])
+            if pre > 0: b.seq(pre)
+            b.ev.append(["protect_fails", rng.randint(0, 3)])
+            for _ in range(rng.randint(1, 3)): (b.seq(rng.choice([1, 2, 5, cfg[0]])) if rng.random() < 0.6 else b.protect())
+        else:
+            if rng.random() < 0.5: b.seq(rng.randint(1, 12))
+            n = b.client; b.client += 1
+            b.ev.append(["unprotect_fails", n, True, None, rng.randint(0, 3)])
+            for _ in range(rng.randint(1, 3)): b.fresh()
+            if rng.random() < 0.4: b.protect()
+        r = rng.random()
+        if r < 0.6: b.kill()
+        elif r < 0.8: b.stop()
+        else: b.protect(rng.randint(0, 4))
+        b.reload(*cfg); b.replay(); b.seq(rng.choice([1, 2, 3])); b.replay(); b.fresh()
+        return b.case()
 
     def gen_kernels(self, rng):
         persisted = rng.choice([0, 0, 10, 30, 70, 1000, MAX_SEQNO - rng.randint(0, 30), MAX_SEQNO, rng.randint(0, 10 ** 6)])
@@ -305,6 +341,12 @@ class C13(fw.Property):
         def protect(self, crash=None): self.ev.append(["protect", crash])
         def seq(self, n, crash=None): self.ev.append(["seq", n, crash])
         def stop(self, crash=None): self.ev.append(["stop", crash])
+        def respond(self, crash=None): self.ev.append(["respond", crash])
+        def maybe_respond(self, p=0.35):
+            """the server answers the request it just unprotected (4.01 + Echo, or an ordinary response; sometimes two: an observation)"""
+            if self.rng.random() < p:
+                self.respond(self.rng.choice([None] * 9 + [0, 2, 4]))
+                if self.rng.random() < 0.3: self.respond()
         def kill(self): self.ev.append(["kill"])
         def unprotect(self, seqno, authentic=True, echo=None, crash=None):
             self.ev.append(["unprotect", seqno, authentic, echo, crash])
@@ -314,14 +356,18 @@ class C13(fw.Property):
             rng = self.rng
             self.client += jump if jump is not None else rng.choice([0, 0, 0, 0, 1, 2, rng.choice([self.size - 1, self.size, self.size + 1, 2 * self.size + 3])])
             n = self.client; self.client += 1
-            self.unprotect(n, True, self.echo if with_echo else None, crash); return n
+            self.unprotect(n, True, self.echo if with_echo else None, crash)
+            if crash is None: self.maybe_respond()
+            return n
         def replay(self, crash=None):
             """an attacker resends a recorded message byte for byte: same number, same inner Echo option"""
             if not self.sent: return self.fresh()
             n, e = self.rng.choice(self.sent[-12:]); self.ev.append(["unprotect", n, True, e, crash])
+            if crash is None: self.maybe_respond()
         def forged(self):
             n = self.rng.choice([self.client, self.client + 1] + [s for s, _ in self.sent[-3:]])
             self.ev.append(["unprotect", n, False, self.rng.choice([None, self.echo, BAD_ECHO]), None])
+            self.maybe_respond(0.2)
         def case(self): return {"size": self.size, "disk": self.disk, "events": self.ev}
 
     def rand_disk(self, rng, size):
@@ -493,9 +539,45 @@ class C13(fw.Property):
             out.append([r, [k.sender_sequence_number, k.sequence_number_persisted, k.sequence_number_chunksize, k.sequence_number_chunksize_limit]])
         return {"calls": out}
 
+    def impl_echo(self, inp):
+        """the real secrets module: every load draws a new 8-byte echo_recovery through secrets.token_bytes and stores it nowhere"""
+        import aiocoap.oscore as o, secrets as real_secrets
+        H.install()
+        root = os.path.join(fw.BUILD, "C13-%d" % os.getpid()); os.makedirs(root, exist_ok=True)
+        base = os.path.join(root, "ctx-echo"); shutil.rmtree(base, ignore_errors=True); os.makedirs(base)
+        drawn = []
+        class Spy:
+            def __getattr__(self, n): return getattr(real_secrets, n)
+            def token_bytes(self, n=None): v = real_secrets.token_bytes(n); drawn.append(v); return v
+        saved, o.secrets = o.secrets, Spy()
+        H.rec = Recorder(base)
+        try:
+            with open(os.path.join(base, "settings.json"), "w") as f: json.dump(SETTINGS, f)
+            vals = []; leaked = []
+            for how in inp["ends"]:
+                c = o.FilesystemSecurityContext(base)
+                vals.append(c.echo_recovery)
+                if how == "protect+kill": c.new_sequence_number()
+                if how == "stop": c._destroy()
+                else: c.lockfile = None
+                for fn in sorted(os.listdir(base)):
+                    raw = open(os.path.join(base, fn), "rb").read()
+                    for v in vals:
+                        if isinstance(v, bytes) and len(v) and (v in raw or v.hex().encode() in raw.lower()): leaked.append(fn)
+            ok = all(isinstance(v, bytes) for v in vals)
+            return {"lens": [len(v) if isinstance(v, bytes) else -1 for v in vals], "distinct": ok and len(set(vals)) == len(vals),
+                    "trivial": [v.hex() for v in vals if ok and len(set(v)) <= 1][:1], "leaked": sorted(set(leaked)),
+                    "from_secrets": ok and all(v in drawn for v in vals)}
+        finally:
+            o.secrets = saved; H.rec = None
+            shutil.rmtree(base, ignore_errors=True)
+            try: os.rmdir(root)
+            except OSError: pass
+
     def impl(self, stream, inp):
         import aiocoap, aiocoap.oscore as o
         if stream == "kernels": return self.impl_kernels(inp)
+        if stream == "echo_fresh": return self.impl_echo(inp)
         H.install()
         root = os.path.join(fw.BUILD, "C13-%d" % os.getpid()); os.makedirs(root, exist_ok=True)
         base = os.path.join(root, "ctx"); shutil.rmtree(base, ignore_errors=True); os.makedirs(base)
@@ -530,7 +612,15 @@ class C13(fw.Property):
             w = ctx.recipient_replay_window
             return [ctx.sender_sequence_number, ctx.sequence_number_persisted, ctx.sequence_number_chunksize, bool(ctx.replay_window_persisted),
                     [w._index, w._bitfield] if w.is_initialized() else None]
+        rid = {"id": None, "err": None}        # the RequestIdentifiers the last unprotect handed on (and the ReplayErrorWithEcho carrying them)
+        def pend_obs():
+            r = rid["id"]
+            return None if (r is None or ctx is None) else [int.from_bytes(r.partial_iv, "big"), bool(r.can_reuse_nonce)]
         def one_event(idx, ev):
+            e = one_event_(idx, ev)
+            if ctx is None: rid["id"] = rid["err"] = None
+            return e + [pend_obs()]
+        def one_event_(idx, ev):
             nonlocal ctx
             op = ev[0]
             if op == "reload":
@@ -541,7 +631,7 @@ class C13(fw.Property):
                     import filelock
                     ob = "busy" if isinstance(e, filelock.Timeout) else ["exn", type(e).__name__]
                 else:
-                    ctx = c; open(held, "w").close()
+                    ctx = c; open(held, "w").close(); rid["id"] = rid["err"] = None
                     ob = ["loaded", c.sender_sequence_number, bool(c.recipient_replay_window.is_initialized())]
             elif ctx is None:
                 ob = "noproc"
@@ -550,10 +640,27 @@ class C13(fw.Property):
                     rec.real_kill.write(json.dumps({"killed": True, "rec": rec.export()}) + "\n"); rec.real_kill.flush(); os._exit(18)
                 abandon(); ob = "died"
             else:
-                crash = ev[-1]
-                rec.begin(crash); rec.partial = None
+                fails = op.endswith("_fails")
+                if fails: op = op[:-6]
+                crash = None if fails else ev[-1]
+                rec.begin(crash, ev[-1] if fails else None); rec.partial = None
                 try:
-                    if op == "protect":
+                    if op == "respond" and rid["id"] is not None:
+                        r = rid["id"]
+                        try:
+                            if rid["err"] is not None:
+                                err, rid["err"] = rid["err"], None
+                                prot = err.to_message()                       # the 4.01 + Echo of ReplayErrorWithEcho
+                            else:
+                                prot, _ = ctx.protect(aiocoap.Message(code=aiocoap.CONTENT, payload=b"r"), request_id=r)
+                        except Exception as e: ob = ["exn", type(e).__name__]
+                        else:
+                            opt = prot.opt.oscore
+                            if len(opt) == 0 or (opt[0] & 7) == 0:          # no own Partial IV: encrypted under the request's nonce
+                                ob = ["reused", int.from_bytes(r.partial_iv, "big")]
+                            else:
+                                n = piv_of(prot); rec.issued(n); ob = ["issued", n]
+                    elif op in ("protect", "respond"):
                         m = aiocoap.Message(code=aiocoap.GET, uri="coap://example.com/x")
                         try:
                             prot, _ = ctx.protect(m)
@@ -571,7 +678,7 @@ class C13(fw.Property):
                             ob = self._seq_obs(nums, "died"); raise
                         ob = self._seq_obs(nums, end)
                     elif op == "unprotect":
-                        _, seqno, authentic, echo, _ = ev
+                        seqno, authentic, echo = ev[1], ev[2], ev[3]
                         cl = client_ctx()
                         m = aiocoap.Message(code=aiocoap.GET, uri="coap://example.com/x")
                         if echo is not None: m.opt.echo = echo.to_bytes(8, "big")
@@ -580,9 +687,10 @@ class C13(fw.Property):
                         if not authentic: prot.payload = prot.payload[:-1] + bytes([prot.payload[-1] ^ 1])
                         prot.mtype = aiocoap.CON; prot.mid = 1; prot.token = b""
                         wire = aiocoap.Message.decode(prot.encode(), "peer")
+                        rid["id"] = rid["err"] = None
                         try:
-                            ctx.unprotect(wire); ob = ["unprot", "Accept"]; rec.accepted.add(seqno)
-                        except o.ReplayErrorWithEcho: ob = ["unprot", "RejectEcho"]
+                            _, r_id = ctx.unprotect(wire); ob = ["unprot", "Accept"]; rec.accepted.add(seqno); rid["id"] = r_id
+                        except o.ReplayErrorWithEcho as e: ob = ["unprot", "RejectEcho"]; rid["id"] = e.request_id; rid["err"] = e
                         except o.ReplayError: ob = ["unprot", "RejectReplay"]
                         except o.ProtectionInvalid: ob = ["unprot", "RejectInvalid"]
                         except Exception as e: ob = ["exn", type(e).__name__]
@@ -633,7 +741,7 @@ class C13(fw.Property):
                     rec.refresh("death of the process")
                     ob = "died"
                     if events[k][0] == "seq" and "died" in l: ob = self._seq_obs(l["partial"] or [], "died")
-                    out.append([ob, rec.state, ntemps()]); k += 1
+                    out.append([ob, rec.state, ntemps(), None]); k += 1
                 elif "end" in l: final_proc[0] = l["proc"]
             rec.refresh("end of lifetime")
             return k
@@ -644,7 +752,7 @@ class C13(fw.Property):
             out.append(one_event(idx, events[idx])); idx += 1
         proc = proc_obs() if ctx is not None else final_proc[0]
         res = {"trace": out, "temps": rec.temps(), "lock": os.path.exists(os.path.join(base, "lock")), "durable": rec.durable,
-               "proc": proc, "fs_anomalies": rec.anomalies}
+               "proc": proc, "fs_anomalies": [] if rec.ever_failed else rec.anomalies}     # after an injected I/O error the consequences are judged on the trace
         abandon()
         return res
 
@@ -663,6 +771,7 @@ class C13(fw.Property):
         r = "RUnknown" if recv == "unknown" else ("(RWin None)" if recv is None else "(RWin (Some (%s, %s)))" % (gz(recv[0]), gz(recv[1])))
         return "(Some {| sf_next := %s; sf_recv := %s |})" % (gz(nxt), r)
     def model(self, stream, inp):
+        if stream == "echo_fresh": return None
         if stream == "kernels" and "rw" in inp: return "kwchanged %s %s" % (gbool(inp["rw"]), gbool(inp["fail"]))
         if stream == "kernels":
             t = inp["t"] if inp["t"] is not None else 2 ** 62
@@ -678,6 +787,10 @@ class C13(fw.Property):
             elif op == "stop": evs.append("CleanStop %s" % gopt(ev[1], gz))
             elif op == "unprotect":
                 evs.append("Unprotect {| seqno := %s; authentic := %s; echo := %s |} %s" % (gz(ev[1]), gbool(ev[2]), gopt(ev[3], gz), gopt(ev[4], gz)))
+            elif op == "respond": evs.append("Respond %s" % gopt(ev[1], gz))
+            elif op == "protect_fails": evs.append("ProtectFails %s" % gz(ev[1]))
+            elif op == "unprotect_fails":
+                evs.append("UnprotectFails {| seqno := %s; authentic := %s; echo := %s |} %s" % (gz(ev[1]), gbool(ev[2]), gopt(ev[3], gz), gz(ev[4])))
             else: raise ValueError(op)
         return "scenario %s %s %s" % (gz(inp.get("size", 32)), self.g_seqfile(inp.get("disk")), glist(evs))
 
@@ -700,7 +813,8 @@ class C13(fw.Property):
             e = a[3]
             end = {"SeqDone": "done", "SeqDied": "died"}[e] if isinstance(e, str) else "exn:" + self.d_exn(e["a"][0])
             return ["seq", a[0], a[1], a[2], end]
-        if c == "BExn": return ["exn", self.d_exn(a[0])]
+        if c == "BExn": return ["exn", "OSError" if self.d_exn(a[0]) == "OtherError_28" else self.d_exn(a[0])]
+        if c == "BReused": return ["reused", a[0]]
         if c == "BUnprot":
             o = a[0]; return ["unprot", o if isinstance(o, str) else "InternalError:" + self.d_exn(o["a"][0])]
         if c == "BLoaded": return ["loaded", a[0], a[1]]
@@ -718,7 +832,7 @@ class C13(fw.Property):
                 out.append([v, None if st == "None" else list(st["a"][0])])
             return {"calls": out}
         t, (temps, lock, durable), proc = p
-        trace = [[self.d_obs(o), self.d_seqfile(s), n] for (o, s, n) in t]
+        trace = [[self.d_obs(o), self.d_seqfile(s), n, None if pe == "None" else list(pe["a"][0])] for (o, s, n, pe) in t]
         tl = sorted([[self.d_seqfile(x["tmp_content"]), x["tmp_synced"]] for x in temps], key=fw.jdump)
         pr = None
         if proc != "None":
@@ -731,11 +845,28 @@ class C13(fw.Property):
         if "harness_exception" in res:
             return ("C13:crash:%s:%s" % (res["harness_exception"], res["where"]), "implementation raised %s (%s)" % (res["harness_exception"], res.get("text")))
         if stream == "kernels": return self._kernel_oracle(inp, res)
+        if stream == "echo_fresh": return self._echo_oracle(res)
         v = self._walk(inp, res)
-        if v is not None: return v
-        for a in res.get("fs_anomalies", []):
-            kind = a.split(":")[0].split(" ")[0]
-            return ("C13:fs:" + kind, a)
+        if v is None:
+            for a in res.get("fs_anomalies", []):
+                kind = a.split(":")[0].split(" ")[0]
+                v = ("C13:fs:" + kind, a); break
+        if v is None: return None
+        # a history in which an injected I/O error came out of _store: the known finding (notes/C13.md round 5), under its own signatures
+        failed = [ev[0] for ev, t in zip(inp["events"], res["trace"]) if ev[0].endswith("_fails") and t[0] == ["exn", "OSError"]]
+        if failed:
+            replay_side = any(k in v[0] for k in ("accept", "replay", "window", "forgery", "reuse-offered", "response-nonce"))
+            if replay_side and "unprotect_fails" in failed:
+                return ("C13:store-error:window-flag-not-rolled-back", "after OSError out of _store in _replay_window_changed: " + v[1] + " [" + v[0] + "]")
+            if not replay_side and "protect_fails" in failed:
+                return ("C13:store-error:bound-not-rolled-back", "after OSError out of _store in post_seqnoincrease: " + v[1] + " [" + v[0] + "]")
+        return v
+    def _echo_oracle(self, res):
+        if res.get("lens") != [8] * len(res.get("lens", [])): return ("C13:echo-not-fresh", "echo_recovery values have lengths %r, expected 8 bytes" % (res.get("lens"),))
+        if not res.get("distinct"): return ("C13:echo-not-fresh", "two lifetimes of the same directory drew the same echo_recovery value")
+        if res.get("trivial"): return ("C13:echo-not-fresh", "echo_recovery is a constant / all-equal-bytes value: %r" % (res["trivial"],))
+        if res.get("leaked"): return ("C13:echo-not-fresh", "an echo_recovery value is stored in %r" % (res["leaked"],))
+        if not res.get("from_secrets"): return ("C13:echo-not-fresh", "echo_recovery was not drawn from secrets.token_bytes")
         return None
     def _kernel_oracle(self, inp, res):
         """local statement on the two methods: the number returned is the counter before the call, below 2^40-1, and — when the
@@ -766,25 +897,27 @@ class C13(fw.Property):
         return None
     def _walk(self, inp, res):
         size = inp.get("size", 32)
-        issued_all = {}            # number -> (event index, lifetime) of its first issue
+        runs = []                  # (first, last, event index, lifetime) of every consecutive run of numbers handed out
+        reused_nonces = {}         # request number -> event at which its nonce was reused for a response
+        last_unprot = None         # (number, accepted through the window check?) of the latest unprotect of this lifetime
         life = 0; alive = False; last_in_life = None
         accepted = {}              # number -> lifetime in which it was (last) accepted
         initialised = False; cur_echo = None
         prev_max = -1; cur_max = -1      # highest request number presented in earlier lifetimes / in this one
         soft = None                # first violation of the crash-safety invariant (reported if no actual reuse shows up later in the history)
         echo_fresh = True          # every Echo-carrying request so far was numbered above all requests of earlier lifetimes
-        for idx, (ev, (ob, disk, ntemps)) in enumerate(zip(inp["events"], res["trace"])):
+        for idx, (ev, (ob, disk, ntemps, pend)) in enumerate(zip(inp["events"], res["trace"])):
             op = ev[0]
-            if isinstance(ob, list) and ob[0] == "exn" and ob[1] not in ("ContextUnavailable", "AssertionError"):
+            if isinstance(ob, list) and ob[0] == "exn" and ob[1] not in ("ContextUnavailable", "AssertionError") and not (ob[1] == "OSError" and op.endswith("_fails")):
                 return ("C13:exception:" + ob[1], "event %d %r raised %s" % (idx, ev, ob[1]))
             if disk == "corrupt": return ("C13:fs:corrupt-sequence-json", "sequence.json unreadable after event %d %r" % (idx, ev))
             if isinstance(ob, list) and ob[0] == "loaded":
-                life += 1; alive = True; last_in_life = None; initialised = ob[2]; cur_echo = 1000 + idx
+                life += 1; alive = True; last_in_life = None; initialised = ob[2]; cur_echo = 1000 + idx; last_unprot = None
                 prev_max = max(prev_max, cur_max); cur_max = -1
                 bound = disk[0] if disk is not None else 0
                 if ob[1] != bound: return ("C13:reload-ignores-disk", "event %d: reloaded at %d but sequence.json says %d" % (idx, ob[1], bound))
-                for nnn in issued_all:
-                    if nnn >= ob[1]: return ("C13:nonce-reused-after-reload", "event %d: context reloaded at %d although %d was issued in an earlier lifetime (event %d)" % (idx, ob[1], nnn, issued_all[nnn][0]))
+                for (f, l, j, lf) in runs:
+                    if l >= ob[1]: return ("C13:nonce-reused-after-reload", "event %d: context reloaded at %d although %d was issued in an earlier lifetime (event %d)" % (idx, ob[1], l, j))
                 continue
             # numbers handed out by this event
             nums = []
@@ -798,20 +931,29 @@ class C13(fw.Property):
                 if first < 0: return ("C13:negative-number", "event %d: sequence number %d issued" % (idx, first))
                 if last_in_life is not None and first <= last_in_life:
                     return ("C13:not-increasing-in-lifetime", "event %d: %d issued after %d in the same lifetime" % (idx, first, last_in_life))
-                for nnn, (j, l) in issued_all.items():
-                    if first <= nnn <= last:
-                        return ("C13:nonce-reused", "sequence number %d issued at event %d (lifetime %d) and again at event %d (lifetime %d)" % (nnn, j, l, idx, life))
-                if len(nums) <= 64:
-                    for v in nums: issued_all[v] = (idx, life)
-                else:
-                    # long consecutive runs: remember the ends and a stride (a later overlap is still found through the reload check above)
-                    for v in list(nums[:8]) + list(nums[-8:]) + list(nums[::max(1, len(nums) // 32)]): issued_all[v] = (idx, life)
+                for (f, l, j, lf) in runs:
+                    if first <= l and f <= last:
+                        return ("C13:nonce-reused", "sequence number %d issued at event %d (lifetime %d) and again at event %d (lifetime %d)" % (max(f, first), j, lf, idx, life))
+                runs.append((first, last, idx, life))
                 last_in_life = last
                 if True:
                     if not (isinstance(disk, list) and disk[0] > last):
                         soft = soft or ("C13:issued-beyond-persisted-bound", "event %d: %d issued but sequence.json says %r: a crash now would reissue it" % (idx, last, disk))
-            if op == "unprotect":
-                _, n, authentic, echo, _ = ev
+            if op == "respond" and isinstance(ob, list) and ob[0] == "reused":
+                n = ob[1]
+                if last_unprot != (n, True):
+                    return ("C13:response-nonce-reused-unverified", "event %d: a response was encrypted under the nonce of request %d, which was not accepted through the window check by the latest unprotect (%r)" % (idx, n, last_unprot))
+                if n in reused_nonces and echo_fresh:
+                    return ("C13:response-nonce-reused-twice", "event %d: the nonce of request %d was already used for the response at event %d" % (idx, n, reused_nonces[n]))
+                reused_nonces[n] = idx
+            if op in ("unprotect", "unprotect_fails"):
+                n, authentic, echo = ev[1], ev[2], ev[3]
+                if ob != "noproc":
+                    last_unprot = (n, ob == ["unprot", "Accept"] and initialised)
+                    if pend is not None and pend[1] and not (last_unprot[1] and pend[0] == n):
+                        return ("C13:reuse-offered-unverified", "event %d: unprotect handed on identifiers with can_reuse_nonce=True for request %d (outcome %r, replay state %s)" % (idx, pend[0], ob, "known" if initialised else "unknown"))
+                    if pend is not None and pend[1] and n in reused_nonces and echo_fresh:
+                        return ("C13:reuse-offered-twice", "event %d: can_reuse_nonce=True for request %d whose nonce was already used for a response at event %d" % (idx, n, reused_nonces[n]))
                 if alive and echo is not None and echo == cur_echo and authentic and n <= prev_max: echo_fresh = False
                 if ob == ["unprot", "Accept"]:
                     if not authentic: return ("C13:forgery-accepted", "event %d: forged request %d accepted" % (idx, n))
@@ -850,7 +992,8 @@ class C13(fw.Property):
             return fw.jdump([stream, inp]) if moved or (c and c[-1][1] is None) else None
         tr = res.get("trace", [])
         lives = sum(1 for t in tr if isinstance(t[0], list) and t[0][0] == "loaded")
-        acted = sum(1 for t in tr if isinstance(t[0], list) and t[0][0] in ("issued", "seq", "unprot"))
+        if stream == "echo_fresh": return fw.jdump([stream, inp])
+        acted = sum(1 for t in tr if isinstance(t[0], list) and t[0][0] in ("issued", "seq", "unprot", "reused"))
         ends = sum(1 for t in tr if t[0] in ("died", "stopped") or (isinstance(t[0], list) and t[0][-1] == "died"))
         return fw.jdump([stream, inp]) if lives >= 2 and acted >= 2 and ends >= 1 else None
 
